@@ -304,6 +304,8 @@ class Renderer:
         for v in self.spec["vars"]:
             if v["module"] == mod:
                 body.append(f"{v['name']} = {var_value(self.spec, self.variant, v['name'])}")
+                if "datetime." in body[-1]:
+                    imports.add("import datetime")
         if self.variant.get("unrel") and mod == self.spec["modules"][-1]:
             body.append("UNRELATED_VAR = %d" % self.variant["unrel"])
         for idx, f in enumerate(fs):
